@@ -43,7 +43,7 @@ Ltac all_bools := repeat match goal with b : bool |- _ => destruct b end.
 Ltac truth_table := eval_pc; cbn; gen_atoms; all_bools; reflexivity.
 
 Definition type_str (t : etype) : string :=
-  match t with TNode => "node" | TWay => "way" | TRel => "relation" end.
+  match t with TNode => "node" | TWay => "way" | TRel => "relation" | TNone => "" end.
 Lemma is_nil_len {A} (l : list A) : is_nil l = (Z.of_nat (List.length l) =? 0).
 Proof. destruct l; reflexivity. Qed.
 
@@ -156,6 +156,34 @@ Lemma route_id_flow :
           events_context_buildRouteLineString = true.
 Proof. vm_compute. split; reflexivity. Qed.
 
+(* ================= identity of the feature: which builders go through the packed FeatureID ===== *)
+(* buildPolygon sets id, "id" and "type" from tagObject.FeatureID() read back through Type() and
+   Ref() (Model.mk_poly_feature: unpack (fid _ _)); node, way and route features use the element's
+   own id (above: "node/" ++ dec(Node.ID), ...).  A change of either kind of tail breaks this. *)
+Definition is_prefix (p s : string) : bool := String.eqb p (String.substring 0 (String.length p) s).
+Definition vals_of (evs : list event) (text : string) : list string :=
+  map ev_val (filter (fun e => String.eqb (ev_kind e) "assign" && String.eqb (ev_text e) text) evs).
+Lemma polygon_identity_flow :
+  vals_of events_context_buildPolygon "Feature.ID"
+    = ["str(osm.Element#0.FeatureID().Type()) ++ ""/"" ++ dec(osm.Element#0.FeatureID().Ref())"] /\
+  vals_of events_context_buildPolygon "Feature.Properties[""id""]" = ["osm.Element#0.FeatureID().Ref()"] /\
+  vals_of events_context_buildPolygon "Feature.Properties[""type""]" = ["string(osm.Element#0.FeatureID().Type())"] /\
+  vals_of events_context_buildPolygon "osm.Element#0" = ["osm.Element(Relation)"; "Way"].
+Proof. vm_compute. repeat split. Qed.
+Lemma plain_identity_flow :
+  vals_of events_context_nodeToFeature "Feature.Properties[""id""]" = ["Node.ID"] /\
+  vals_of events_context_nodeToFeature "Feature.Properties[""type""]" = ["""node"""] /\
+  vals_of events_context_wayToFeature "Feature.Properties[""id""]" = ["Way.ID"] /\
+  vals_of events_context_wayToFeature "Feature.Properties[""type""]" = ["""way"""] /\
+  vals_of events_context_buildRouteLineString "Feature.Properties[""id""]" = ["Relation.ID"] /\
+  vals_of events_context_buildRouteLineString "Feature.Properties[""type""]" = ["""relation"""].
+Proof. vm_compute. repeat split. Qed.
+(* the membership map is written under the member's packed id (Model.rel_summaries compares fid's) *)
+Lemma membership_key_flow :
+  map ev_text (filter (fun e => String.eqb (ev_kind e) "assign" && is_prefix "context.relationMember[" (ev_text e)) events_Convert)
+    = ["context.relationMember[Member.FeatureID()]"].
+Proof. vm_compute. reflexivity. Qed.
+
 (* ================= addMetaProperties ================= *)
 Lemma relations_flow (norel : bool) (n : Z) :
   ceval (env_of [("context.noRelationMembership", VB norel); ("len(context.relationMember[osm.Element#0.FeatureID()])", VZ n)])
@@ -190,7 +218,6 @@ Proof.
     generalize (tsz "Node") (tsz "Way") (tsz "Relation"); intros; gen_atoms; all_bools; reflexivity.
 Qed.
 (* the assigned values are the element's own fields, and there is no sixth key *)
-Definition is_prefix (p s : string) : bool := String.eqb p (String.substring 0 (String.length p) s).
 Lemma meta_keys_flow :
   forallb (fun e => negb (is_prefix "map[string]interface{}#0[" (ev_text e)) ||
                     existsb (String.eqb (ev_text e))
